@@ -13,6 +13,7 @@ mod bv;
 mod rt;
 mod mux;
 mod srv;
+mod wsx;
 
 fn main() {
     let args: Vec<String> = std::env::args().collect();
@@ -40,6 +41,8 @@ fn main() {
         "rt-random" => rt::random(&a),
         "mux" => mux::run(&a),
         "srv-c03" => srv::c03(&a),
+        "ws-c16" => wsx::c16(&a),
+        "ws-c17" => wsx::c17(&a),
         other => {
             eprintln!("unknown engine {other}");
             2
